@@ -367,6 +367,9 @@ def run_shape(shape, tier, focus="C02"):
                 pref += [core.lift(v) >= -4, core.lift(v) <= z3.RealVal("-1/50")]
             for i, r_ in enumerate(info["lib"]):
                 pref += [core.lift(r_[0]) == 2 + i] + [z3.And(core.lift(c) >= 0, core.lift(c) <= 5) for c in r_[1:]]
+            # second tier: all uniforms equal, so that the counterexample does not hinge on WHICH uniform is compared with which
+            # sample (the replay oracle accepts any one-to-one assignment); dropped when the violation needs distinct uniforms
+            pref = [pref, [core.lift(v) == core.lift(vs[0]) for v in vs[1:]]]
             if focus == "C02":
                 sink.check(path, "rng_protocol", core.SB(z3.BoolVal(not problems)), site=shape["mode"], describe=desc)
                 sink.check(path, "rows", core.SB(claims_rows(info, rows, kept, ranks)), site=shape["mode"], describe=desc, prefer=pref)
